@@ -151,4 +151,6 @@ DATASETS = {
     "digit-component": [[{"a"}, {"1"}, {"2"}, {"3"}], [{"a"}, {"2"}, {"3"}, {"1"}], [{"a"}, {"3"}, {"1"}, {"2"}]],
     "with-empty": [[{1}, {2}], [], [{2}, {3}], [{3}, {1}]],
     "big-bucket": [[{1, 2, 3}, {4}], [{4}, {1}], [{2}, {4}, {3}]],
+    "six-mixed": [[{1}, {2, 3}, {4}, {5, 6}], [{6}, {5}, {4}, {3}, {2}, {1}], [{2, 1}, {3, 4}], [{5}, {1}, {6}], [{3}, {6, 2}]],
+    "five-cycle-ties": [[{1}, {2}, {3}, {4}, {5}], [{3, 4}, {5}, {1}, {2}], [{5}, {1, 2, 3}], [{2}, {4}], [{4}, {5}, {3}, {2}, {1}]],
 }
